@@ -4,6 +4,7 @@ import (
 	"bytes"
 	"fmt"
 	"sort"
+	"sync"
 	"sync/atomic"
 	"time"
 
@@ -801,6 +802,28 @@ func c15Worker(c *core.Collector, x *Ctx) {
 			c.Violate(v[0], v[1]+" ["+p.Gen+", partition "+p.Mode+"]", p)
 		}
 	}
+	// the dimensions random sessions do not reach, in the background of the rest: real time, one very long connection, one
+	// very large file
+	var special sync.WaitGroup
+	if x.Batch == 0 {
+		special.Add(3)
+		go func() {
+			defer special.Done()
+			c15SlowSession(c, addrs[int(consts.ActiveSafetyJS)], consts.ActiveSafetyJS, time.Duration(c.N(12, 65))*time.Second)
+		}()
+		go func() {
+			defer special.Done()
+			c15LongConnection(c, gen.Dialects[int(c.Seed)%5])
+		}()
+		go func() {
+			defer special.Done()
+			c15BigFile(c, gen.Dialects[int(c.Seed+1)%5], 32<<20+1024, c.Seed)
+			if c.Thorough() {
+				c15BigFile(c, consts.ActiveSafetyHLJ, 80<<20, c.Seed)
+			}
+		}()
+	}
+	defer special.Wait()
 	n := c.N(1500, 60000)
 	core.ParallelFor(n, ncpu(), func(i int) {
 		g := gen.G{Rand: core.NewRand(c.Seed, "c15", uint64(i))}
